@@ -63,7 +63,7 @@ def confirm(pid, var):
             rc, out = sh(["git", "apply", patch], cwd=wt)
         rec["ran"].append({"cmd": "git apply patch.diff", "rc": rc, "out": out[-300:]})
         assert rc == 0, "patch does not apply: " + out
-        changed = sh("git diff --name-only", cwd=wt)[1].split()
+        changed = sh("git diff --name-only HEAD", cwd=wt)[1].split()
         mods = sorted({module_of(f) for f in changed if module_of(f)})
         is_py = any(f.endswith(".py") for f in changed)
         suites_ok = True
@@ -87,8 +87,15 @@ def confirm(pid, var):
         demo_dst = os.path.join(wt, demo_rel)
         shutil.copy(demo_src, demo_dst)
         if is_py:
-            cmd = meta.get("demo_cmd") or f"python3 {demo_rel}"
-            cwd = wt
+            cmd = f"python3 {os.path.basename(demo_rel)} -v"
+            cwd = os.path.join(wt, os.path.dirname(demo_rel))
+            # the runnable part of the existing python suite (shim written by the seeding agent; pytest etc. are not installed)
+            shim = os.path.join(OUT, pid, "tools", "run_existing_py_tests.py")
+            if os.path.exists(shim):
+                rc_s, out_s = sh(f"python3 {shim} {wt}/interceptors/lunar-py-interceptor/lunar_interceptor", cwd=wt)
+                okline = [l for l in out_s.splitlines() if l.startswith("====")]
+                rec["ran"].append({"cmd": "run_existing_py_tests.py (22 runnable tests) with change", "rc": rc_s, "summary": okline})
+                suites_ok = suites_ok and rc_s == 0 and any(", 0 failed" in l for l in okline)
         else:
             dm = module_of(demo_rel)
             pkg = "./" + os.path.dirname(demo_rel[len(dm) + 1:])
